@@ -40,12 +40,16 @@ Record behaviour := mkBeh {
                                         group members: a UUID-shaped key that is no link name is tried as a name *)
   b_replace_all_atomic : bool;  (* new  references(vector) / sources(vector) / group members(vector) validate first *)
   b_feature_null_guard : bool;  (* #14  getFeature skips features whose data link is gone *)
-  b_delsource_by_id    : bool   (* new (C04) Block::deleteSource(handle) deletes the source with that ID, not the root source
+  b_delsource_by_id    : bool;  (* new (C04) Block::deleteSource(handle) deletes the source with that ID, not the root source
                                         that happens to have the same NAME *)
+  b_valid_reachable    : bool   (* #13 + new (C04) isValidEntity() = "the object can be reached from the file root", not
+                                        "its HDF5 link count is positive": a link held by the deleted object itself (alias range
+                                        dimension, Section::link to itself) or by an already deleted holder that is still open
+                                        keeps the count positive.  Used by Store/DbSession.v ([handle_valid]) *)
 }.
 
-Definition repaired : behaviour := mkBeh true true true true true true true true true true true true true true true.
-Definition code_today : behaviour := mkBeh false false false false false false false false false false false false false false false.
+Definition repaired : behaviour := mkBeh true true true true true true true true true true true true true true true true.
+Definition code_today : behaviour := mkBeh false false false false false false false false false false false false false false false false.
 
 (** ** call arguments and results *)
 Inductive harg := HNone | HEnt (o : nat).
@@ -107,6 +111,11 @@ Inductive op :=
 | OSetValues (o : nat) (vals : list dtype)
 | OSetTagPos (o : nat) (x : list string)
 | OSetTagExt (o : nat) (x : option (list string))
+| ODimAdd  (o : nat) (d : dimd) (f : harg)   (* DataArray::append{Set,Range,Sampled,AliasRange,DataFrame}Dimension; [d] gives the
+                                                kind, [f] the frame of a data-frame dimension *)
+| ODimClear (o : nat)                        (* DataArray::deleteDimensions *)
+| OTouch   (o : nat) (ks : list kind)        (* a well-formed write of a field this model does not carry (label, unit, data,
+                                                values, descriptor fields, ...) on a live entity of one of the kinds [ks] *)
 | OReopen.
 
 (** exception classes *)
@@ -122,6 +131,7 @@ Definition ERuntime := "std::runtime_error"%string.
 Definition EInvArg := "std::invalid_argument"%string.
 Definition EH5 := "nix::hdf5::H5Exception"%string.
 Definition EH5Err := "nix::hdf5::H5Error"%string.
+Definition EInvDim := "nix::InvalidDimension"%string.
 Definition EModel := "model::bad-receiver"%string.
 
 Section Ops.
@@ -757,6 +767,9 @@ Definition relink_section (s : db) (o : nat) (sl : oslot) (lookup_first : bool) 
 
 Definition extent_of (s : db) (o : option nat) : option (list Z) :=
   match o with Some t => option_map (fun e => p_extent (e_pay e)) (find_ent s t) | None => None end.
+(** nix::data_type_is_numeric *)
+Definition dtype_numeric (d : dtype) : bool :=
+  match d with DUInt8 | DUInt16 | DUInt32 | DUInt64 | DInt8 | DInt16 | DInt32 | DInt64 | DFloat | DDouble => true | _ => false end.
 Fixpoint zlist_eqb (a b : list Z) : bool :=
   match a, b with
   | [], [] => true
@@ -884,6 +897,11 @@ Definition do_setter (s : db) (o : nat) (oper : op) : db * res value :=
         if dtype_eqb (p_dtype (e_pay e)) DNothing then fail s ERuntime        (* no dataset *)
         else if negb (Nat.eqb (List.length x) (List.length (p_extent (e_pay e)))) then fail s ERank
         else ret (upd s o (with_pay (set_extent x))) VUnit
+      | KFrame =>                                      (* DataFrame::rows(n) *)
+        match x with
+        | [n] => ret (upd s o (with_pay (set_extent [n]))) VUnit
+        | _ => fail s EModel
+        end
       | _ => fail s EModel
       end
     | OSetValues _ vals =>
@@ -906,6 +924,37 @@ Definition do_setter (s : db) (o : nat) (oper : op) : db * res value :=
       match k with KTag => ret (upd s o (with_pay (set_tpos x))) VUnit | _ => fail s EModel end
     | OSetTagExt _ x =>
       match k with KTag => ret (upd s o (with_pay (set_text x))) VUnit | _ => fail s EModel end
+    | ODimAdd _ d f =>
+      match k, blk with
+      | KArray, Some b =>
+        let dims := l_dims (e_links e) in
+        match d with
+        | DimAlias =>
+          (* front-end: rank, element type, no dimension yet (the unit check is the driver's: arrays get SI units only) *)
+          if Nat.ltb 1 (List.length (p_extent (e_pay e))) then fail s EInvDim
+          else if negb (dtype_numeric (p_dtype (e_pay e))) then fail s EInvDim
+          else if negb (Nat.eqb (List.length dims) 0) then fail s EInvDim
+          else ret (upd s o (with_links (set_dims [DimAlias]))) VUnit
+        | DimFrame _ =>
+          match f with
+          | HNone => fail s EUninit
+          | HEnt _ =>
+            (* backend: checkFrameInBlock(block(), df) -> getEntity<IDataFrame>(df.id()), before the group is created *)
+            match block_find_key (children s (Some b) KFrame) (hid s f) with
+            | None => fail s ERuntime
+            | Some t => ret (upd s o (with_links (set_dims (dims ++ [DimFrame (Some (e_oid t))])))) VUnit
+            end
+          end
+        | _ => ret (upd s o (with_links (set_dims (dims ++ [d])))) VUnit
+        end
+      | _, _ => fail s EModel
+      end
+    | ODimClear _ =>
+      match k with
+      | KArray => ret (upd s o (with_links (set_dims []))) (VBool true)
+      | _ => fail s EModel
+      end
+    | OTouch _ ks => if existsb (kind_eqb k) ks then ret s VUnit else fail s EModel
     | _ => fail s EModel
     end
   end.
@@ -949,7 +998,8 @@ Definition step (s : db) (o : op) : db * res value :=
   | OLGet h sl _ | OLGetIdx h sl _ | OLCount h sl | OLList h sl | OLSet h sl _ => do_link_op s h sl o
   | OSetType x _ | OSetDef x _ | OSetMeta x _ | OSetMetaS x _ | OSetLink x _ | OSetLinkS x _
   | OSetPos x _ | OSetPosS x _ | OSetExt x _ | OSetExtS x _ | OSetData x _ | OSetDataS x _
-  | OSetUnits x _ | OSetExtent x _ | OSetValues x _ | OSetTagPos x _ | OSetTagExt x _ => do_setter s x o
+  | OSetUnits x _ | OSetExtent x _ | OSetValues x _ | OSetTagPos x _ | OSetTagExt x _
+  | ODimAdd x _ _ | ODimClear x | OTouch x _ => do_setter s x o
   | OReopen => ret s VUnit       (* the library keeps no write-back state: the file is the state *)
   end.
 
@@ -975,4 +1025,5 @@ Definition current_behaviour : behaviour :=
      b_uuid_name_links := true;       (* fixed in /repo (new finding ) *)
      b_replace_all_atomic := true;    (* fixed in /repo (new finding ) *)
      b_feature_null_guard := true;    (* fixed in /repo (#14 ) *)
-     b_delsource_by_id := true        (* fixed in /repo (new finding (C04) ) *) |}.
+     b_delsource_by_id := true;       (* fixed in /repo: bec435c (new finding (C04)) *)
+     b_valid_reachable := true       (* NOT fixed in /repo: notes/proposed-fixes/C04-1-isValidEntity-root-reachable.patch *) |}.
